@@ -10,7 +10,17 @@
                       scan-of-by_target.items() / yield-from-index[name] / if-name-in-index.
   gen_search_scans_snapshot   every scan loop of search iterates a copy (`list(...)`) of the items
   gen_copyset_iter    CopySet.__iter__ as a generator program (snapshot / yield from cur | self | self - cur | copy)
-  gen_remove_copyset  _remove_copyset: (reads with .get (no defaultdict insert), uses discard, deletes when empty)
+  gen_setitem_maint   Entity.__setitem__, everything after the lookup loop: the `if key_fold == 'classname' ... elif
+                      key_fold == 'targetname' ...` chain as a program (SM/IndexMaint.v [mprog]) of index removals /
+                      additions, the recursive `self['classname'] = 'worldspawn'`, direct `_keys` stores and raises.
+                      Early returns are translated in continuation-passing style (`if c: ...; return` followed by S
+                      is `if c: ... else: S`), boolean / key locals are inlined; branches about other keys (nodeid,
+                      property C08) must not touch the indexes and are skipped.
+  gen_remove_copyset  _remove_copyset as a shape (SM/IndexRemove.v [rc_shape]): how the set is fetched (.get / defaultdict
+                      read / read after a membership test), whether anything runs when there is none, discard vs
+                      remove, when the key is deleted.  Early returns are normalised to `if`/`else`.
+  gen_add_ents        VMF.add_ents as a program over its iterable argument (SM/IndexMaint.v [aeprog]): is the argument
+                      materialised, which collection is each loop / extend fed from, what does each loop body do.
 
 Fail-closed: any statement or expression outside the recognised forms raises TranslateError.
 """
@@ -109,7 +119,7 @@ class _Path:
         raise TranslateError(f'{where}: unrecognised statement in the lookup prefix: {ast.unparse(st)[:80]}')
 
 
-def _setitem_shape(fn: ast.FunctionDef) -> tuple[str, dict]:
+def _setitem_shape(fn: ast.FunctionDef) -> tuple[str, dict, dict]:
     where = f'Entity.__setitem__:{fn.lineno}'
     params = [a.arg for a in fn.args.args]
     if len(params) != 3 or params[0] != 'self':
@@ -185,13 +195,37 @@ def _setitem_shape(fn: ast.FunctionDef) -> tuple[str, dict]:
     hit = run(hit_body, True)
     miss = run(list(loop.orelse), False)
     # the variable holding the previous value: the one folded in the _remove_copyset calls of the maintenance part
+    # (a key local of the maintenance part — `old = (orig_val or '').casefold()` — is looked through: what counts is
+    # the variable assigned in the lookup prefix that the removal key is computed from)
+    rest_locals: dict[str, list[ast.expr]] = {}
+    for st in rest:
+        for n in ast.walk(st):
+            if isinstance(n, ast.AnnAssign) and n.value is not None and isinstance(n.target, ast.Name):
+                rest_locals.setdefault(n.target.id, []).append(n.value)
+            elif isinstance(n, ast.Assign):
+                for t in n.targets:
+                    if isinstance(t, ast.Name):
+                        rest_locals.setdefault(t.id, []).append(n.value)
+                    elif not isinstance(t, (ast.Subscript, ast.Attribute)):
+                        raise TranslateError(f'{where}: unrecognised assignment target in the maintenance part: {ast.unparse(t)}')
+            elif isinstance(n, ast.NamedExpr):
+                raise TranslateError(f'{where}: assignment expression in the maintenance part')
+
+    def roots(names: set[str], seen: frozenset = frozenset()) -> set[str]:
+        out: set[str] = set()
+        for nm in names:
+            if nm in rest_locals and nm not in seen:
+                for v in rest_locals[nm]:
+                    out |= roots({x.id for x in ast.walk(v) if isinstance(x, ast.Name)}, seen | {nm})
+            else:
+                out.add(nm)
+        return out
     orig_vars: set[str] = set()
     for st in rest:
         for n in ast.walk(st):
             if isinstance(n, ast.Call) and isinstance(n.func, ast.Name) and n.func.id == '_remove_copyset' and len(n.args) == 3:
                 names = {x.id for x in ast.walk(n.args[1]) if isinstance(x, ast.Name)}
-                orig_vars |= names
-            # a later read or store of _keys that involves classname/targetname maintenance is not expected
+                orig_vars |= roots(names)
     if len(orig_vars) != 1:
         raise TranslateError(f'{where}: cannot identify the previous-value variable (candidates {sorted(orig_vars)})')
     ov = orig_vars.pop()
@@ -219,7 +253,9 @@ def _setitem_shape(fn: ast.FunctionDef) -> tuple[str, dict]:
     b = lambda x: 'true' if x else 'false'   # noqa: E731
     coq = (f'Definition gen_setitem_shape : setitem_shape :=\n  SetShape {b(lfold)} {b(rfold)} {shape["hit_read"]} '
            f'{shape["hit_store"]} {shape["miss_read"]} {shape["miss_store"]}.\n')
-    return coq, shape
+    ctx = dict(where=where, rest=rest, hit=hit, miss=miss, key_param=key_param, val_param=params[2], orig_var=ov,
+               prefix=prefix[:li], post=prefix[li + 1:])
+    return coq, shape, ctx
 
 
 # ---------------------------------------------------------------------------------------------- VMF.search
@@ -442,18 +478,543 @@ def _copyset_iter(fn: ast.FunctionDef) -> tuple[str, dict]:
     return f'Definition gen_copyset_iter : iprog := {lst}.\n', dict(prog=prog)
 
 
+
+# ---------------------------------------------------------------------------------------------- _remove_copyset
+def _remove_copyset_shape(fn: ast.FunctionDef) -> tuple[str, dict]:
+    """The helper as a shape (SM/IndexRemove.v [rc_shape]): how the set is fetched, whether anything runs when there is
+    none, discard vs remove, and when the key is deleted.  Early returns are first rewritten into nested `if`s; the
+    walk is fail-closed (`try: s = mapping[key] except KeyError` is not accepted: on the defaultdicts this helper is
+    called with, the read inserts an empty set and never raises)."""
+    where = '_remove_copyset'
+    params = [a.arg for a in fn.args.args]
+    if len(params) != 3 or fn.args.vararg or fn.args.kwarg or fn.args.kwonlyargs:
+        raise TranslateError(f'{where}: unexpected parameters {params}')
+    mp, kp, ep = params
+
+    def nm(e: ast.AST, name: str | None) -> bool:
+        return name is not None and isinstance(e, ast.Name) and e.id == name
+
+    def is_sub(e: ast.AST) -> bool:
+        return isinstance(e, ast.Subscript) and nm(e.value, mp) and nm(e.slice, kp)
+
+    def is_none(e: ast.AST) -> bool:
+        return isinstance(e, ast.Constant) and e.value is None
+
+    def has_return(stmts: list[ast.stmt]) -> bool:
+        return any(isinstance(n, ast.Return) for st in stmts for n in ast.walk(st))
+
+    def norm(stmts: list[ast.stmt]) -> list[ast.stmt]:
+        out: list[ast.stmt] = []
+        for i, st in enumerate(stmts):
+            rest = stmts[i + 1:]
+            if isinstance(st, ast.Pass) or (isinstance(st, ast.Expr) and isinstance(st.value, ast.Constant)):
+                continue
+            if isinstance(st, ast.Return):
+                if st.value is not None and not is_none(st.value):
+                    raise TranslateError(f'{where}:{st.lineno}: returns a value')
+                return out
+            if isinstance(st, ast.If):
+                b_ret = bool(st.body) and isinstance(st.body[-1], ast.Return)
+                o_ret = bool(st.orelse) and isinstance(st.orelse[-1], ast.Return)
+                if has_return(st.body[:-1] if b_ret else st.body) or has_return(st.orelse[:-1] if o_ret else st.orelse):
+                    raise TranslateError(f'{where}:{st.lineno}: nested return')
+                if b_ret or o_ret:
+                    # `if c: A; return` followed by R  ==  `if c: A else: R`
+                    body = norm(st.body) if b_ret else norm(st.body + rest)
+                    orelse = norm(st.orelse) if o_ret else norm(st.orelse + rest)
+                    out.append(ast.If(test=st.test, body=body, orelse=orelse, lineno=st.lineno))
+                    return out
+                out.append(ast.If(test=st.test, body=norm(st.body), orelse=norm(st.orelse), lineno=st.lineno))
+                continue
+            out.append(st)
+        return out
+
+    S: dict = dict(look=None, var=None, guarded=False, in_guard=False, rem=None, drop=None)
+
+    def is_var(e: ast.AST) -> bool:
+        return nm(e, S['var'])
+
+    def truth(e: ast.expr) -> bool | None:
+        """test on the set: True = 'the set is non-empty', False = 'the set is empty', None = not such a test"""
+        if is_var(e):
+            return True
+        if isinstance(e, ast.UnaryOp) and isinstance(e.op, ast.Not):
+            t = truth(e.operand)
+            return None if t is None else not t
+        is_len = isinstance(e, ast.Call) and nm(e.func, 'len') and len(e.args) == 1 and not e.keywords and is_var(e.args[0])
+        if is_len:
+            return True
+        if isinstance(e, ast.Compare) and len(e.ops) == 1 and isinstance(e.comparators[0], ast.Constant) and e.comparators[0].value == 0 \
+                and isinstance(e.left, ast.Call) and nm(e.left.func, 'len') and len(e.left.args) == 1 and is_var(e.left.args[0]):
+            if isinstance(e.ops[0], ast.Eq):
+                return False
+            if isinstance(e.ops[0], (ast.NotEq, ast.Gt)):
+                return True
+        return None
+
+    def is_del(st: ast.stmt) -> bool:
+        if isinstance(st, ast.Delete) and len(st.targets) == 1 and is_sub(st.targets[0]):
+            return True
+        if isinstance(st, ast.Expr) and isinstance(st.value, ast.Call) and isinstance(st.value.func, ast.Attribute) \
+                and st.value.func.attr == 'pop' and nm(st.value.func.value, mp) and not st.value.keywords and st.value.args \
+                and nm(st.value.args[0], kp) and (len(st.value.args) == 1 or (len(st.value.args) == 2 and is_none(st.value.args[1]))):
+            return True
+        return False
+
+    def only_del(block: list[ast.stmt], w: str) -> bool:
+        if not block:
+            return False
+        if len(block) == 1 and is_del(block[0]):
+            return True
+        raise TranslateError(f'{w}: unrecognised statements under the emptiness test')
+
+    def walk(stmts: list[ast.stmt]) -> None:
+        for i, st in enumerate(stmts):
+            w = f'{where}:{getattr(st, "lineno", fn.lineno)}'
+            rest = stmts[i + 1:]
+            if isinstance(st, ast.AnnAssign) and st.value is not None:
+                st = ast.Assign(targets=[st.target], value=st.value, lineno=st.lineno)
+            # -- the lookup
+            if isinstance(st, ast.Assign) and len(st.targets) == 1 and isinstance(st.targets[0], ast.Name) and S['look'] is None:
+                v = st.value
+                if isinstance(v, ast.Call) and isinstance(v.func, ast.Attribute) and v.func.attr == 'get' and nm(v.func.value, mp) \
+                        and not v.keywords and v.args and nm(v.args[0], kp) and (len(v.args) == 1 or (len(v.args) == 2 and is_none(v.args[1]))):
+                    S['look'] = 'LGet'
+                elif is_sub(v):
+                    S['look'] = 'LIndexIfIn' if S['in_guard'] else 'LIndex'
+                else:
+                    raise TranslateError(f'{w}: unrecognised lookup {ast.unparse(v)}')
+                S['var'] = st.targets[0].id
+                if S['var'] in params:
+                    raise TranslateError(f'{w}: the set is bound to a parameter name')
+                S['guarded'] = S['in_guard']
+                continue
+            if isinstance(st, ast.If):
+                t = st.test
+                # `key in mapping` before the lookup
+                if S['look'] is None and isinstance(t, ast.Compare) and len(t.ops) == 1 and nm(t.left, kp) and nm(t.comparators[0], mp) \
+                        and isinstance(t.ops[0], (ast.In, ast.NotIn)):
+                    found, absent = (st.body, st.orelse) if isinstance(t.ops[0], ast.In) else (st.orelse, st.body)
+                    if absent or rest:
+                        raise TranslateError(f'{w}: code runs when the key is absent')
+                    S['in_guard'] = True
+                    walk(found)
+                    return
+                # `s is not None` after a .get lookup
+                if S['look'] is not None and S['rem'] is None and isinstance(t, ast.Compare) and len(t.ops) == 1 and is_var(t.left) \
+                        and is_none(t.comparators[0]) and isinstance(t.ops[0], (ast.Is, ast.IsNot)):
+                    found, absent = (st.body, st.orelse) if isinstance(t.ops[0], ast.IsNot) else (st.orelse, st.body)
+                    if absent or rest:
+                        raise TranslateError(f'{w}: code runs when no set was found')
+                    S['guarded'] = True
+                    walk(found)
+                    return
+                # the emptiness test after the removal
+                if S['rem'] is not None and S['drop'] is None and truth(t) is not None:
+                    nonempty, empty = (st.body, st.orelse) if truth(t) else (st.orelse, st.body)
+                    de, dn = only_del(empty, w), only_del(nonempty, w)
+                    S['drop'] = {(True, False): 'DIfEmpty', (False, True): 'DIfNonEmpty', (True, True): 'DAlways', (False, False): 'DNever'}[(de, dn)]
+                    if rest:
+                        raise TranslateError(f'{w}: statements after the emptiness test')
+                    return
+                raise TranslateError(f'{w}: unrecognised test {ast.unparse(t)}')
+            # -- taking the entity out
+            if isinstance(st, ast.Expr) and isinstance(st.value, ast.Call) and isinstance(st.value.func, ast.Attribute) \
+                    and st.value.func.attr in ('discard', 'remove') and is_var(st.value.func.value) and S['rem'] is None:
+                c = st.value
+                if len(c.args) != 1 or c.keywords or not nm(c.args[0], ep):
+                    raise TranslateError(f'{w}: something else than the entity is taken out of the set')
+                S['rem'] = 'RDiscard' if c.func.attr == 'discard' else 'RRemove'
+                continue
+            if S['rem'] is not None and S['drop'] is None and is_del(st):
+                S['drop'] = 'DAlways'
+                if rest:
+                    raise TranslateError(f'{w}: statements after the deletion')
+                return
+            raise TranslateError(f'{w}: unrecognised statement {ast.unparse(st)[:80]}')
+
+    walk(norm(_strip_doc(fn.body)))
+    if S['look'] is None or S['rem'] is None:
+        raise TranslateError(f'{where}: no lookup of the set / the entity is never taken out of it')
+    drop = S['drop'] or 'DNever'
+    b = lambda x: 'true' if x else 'false'   # noqa: E731
+    coq = f'Definition gen_remove_copyset : rc_shape := RC {S["look"]} {b(S["guarded"])} {S["rem"]} {drop}.\n'
+    return coq, dict(look=S['look'], absent_skips=S['guarded'], rem=S['rem'], drop=drop)
+
+
+# ---------------------------------------------------------------------------------------------- Entity.__setitem__ maintenance
+def _coq_str(s: str) -> str:
+    return '[' + ';'.join(str(ord(c)) for c in s) + ']%N' if s else '[]'
+
+
+def _seq(a: str, b: str) -> str:
+    if a == 'MSkip':
+        return b
+    if b == 'MSkip':
+        return a
+    return f'(MSeq {a} {b})'
+
+
+def _is_self(e: ast.AST) -> bool:
+    return isinstance(e, ast.Name) and e.id == 'self'
+
+
+def _self_map_attr(e: ast.AST, attr: str) -> bool:
+    """self.map.<attr>"""
+    return (isinstance(e, ast.Attribute) and e.attr == attr and isinstance(e.value, ast.Attribute)
+            and e.value.attr == 'map' and _is_self(e.value.value))
+
+
+class _MaintTr:
+    """Translate the statements after the lookup loop of Entity.__setitem__ into an [mprog] (continuation-passing)."""
+
+    INDEXED = ('classname', 'targetname')
+
+    def __init__(self, ctx: dict) -> None:
+        self.where = ctx['where']
+        self.hit: _Path = ctx['hit']
+        self.miss: _Path = ctx['miss']
+        self.ov: str = ctx['orig_var']
+        self.key_param: str = ctx['key_param']
+        # the variable holding the converted new value: <v> = conv_kv(<val parameter>) before the loop
+        self.newvar: str | None = None
+        for st in ctx['prefix']:
+            if isinstance(st, ast.AnnAssign) and st.value is not None:
+                st = ast.Assign(targets=[st.target], value=st.value, lineno=st.lineno)
+            if isinstance(st, ast.Assign) and len(st.targets) == 1 and isinstance(st.targets[0], ast.Name) \
+                    and isinstance(st.value, ast.Call) and isinstance(st.value.func, ast.Name) and st.value.func.id == 'conv_kv' \
+                    and len(st.value.args) == 1 and isinstance(st.value.args[0], ast.Name) and st.value.args[0].id == ctx['val_param']:
+                self.newvar = st.targets[0].id
+        if self.newvar is None:
+            raise TranslateError(f'{self.where}: the new value is not `<v> = conv_kv(<value parameter>)` before the lookup loop')
+        self.conds: dict[str, str] = {}
+        self.keys: dict[str, str] = {}
+
+    # -- expressions
+    def _is_key_fold(self, e: ast.expr) -> bool:
+        """an expression whose value is key.casefold() on both paths"""
+        if isinstance(e, ast.Name):
+            return self.hit.env.get(e.id) == ('spell', 'KFoldedKey') and self.miss.env.get(e.id) == ('spell', 'KFoldedKey')
+        if isinstance(e, ast.Call) and isinstance(e.func, ast.Attribute) and e.func.attr == 'casefold' and not e.args \
+                and not e.keywords and isinstance(e.func.value, ast.Name):
+            h, m = self.hit.env.get(e.func.value.id), self.miss.env.get(e.func.value.id)
+            # the stored spelling matched case-insensitively, so its casefold is the caller's
+            return h in (('spell', 'KCaller'), ('spell', 'KStored')) and m == ('spell', 'KCaller')
+        return False
+
+    def _folded(self, e: ast.expr) -> ast.expr | None:
+        if isinstance(e, ast.Call) and isinstance(e.func, ast.Attribute) and e.func.attr == 'casefold' and not e.args and not e.keywords:
+            return e.func.value
+        return None
+
+    def _is_new_fold(self, e: ast.expr) -> bool:
+        v = self._folded(e)
+        return isinstance(v, ast.Name) and v.id == self.newvar
+
+    def cond(self, e: ast.expr, w: str) -> str:
+        if isinstance(e, ast.Name) and e.id in self.conds:
+            return self.conds[e.id]
+        if isinstance(e, ast.UnaryOp) and isinstance(e.op, ast.Not):
+            return f'(MCNot {self.cond(e.operand, w)})'
+        if isinstance(e, ast.BoolOp):
+            parts = [self.cond(x, w) for x in e.values]
+            acc = parts[-1]
+            for x in reversed(parts[:-1]):
+                acc = f'({"MCOr" if isinstance(e.op, ast.Or) else "MCAnd"} {x} {acc})'
+            return acc
+        if isinstance(e, ast.Compare) and len(e.ops) == 1:
+            op, a, b = e.ops[0], e.left, e.comparators[0]
+            if isinstance(op, (ast.Eq, ast.NotEq)):
+                if isinstance(a, ast.Constant):
+                    a, b = b, a
+                if isinstance(b, ast.Constant) and isinstance(b.value, str):
+                    if self._is_key_fold(a):
+                        c = f'(MCKeyIs {_coq_str(b.value)})'
+                    elif self._is_new_fold(a):
+                        c = f'(MCNewIs {_coq_str(b.value)})'
+                    else:
+                        raise TranslateError(f'{w}: unrecognised comparison {ast.unparse(e)}')
+                    return c if isinstance(op, ast.Eq) else f'(MCNot {c})'
+            if isinstance(op, (ast.In, ast.NotIn)) and _is_self(a) and _self_map_attr(b, 'entities'):
+                return 'MCInEnts' if isinstance(op, ast.In) else '(MCNot MCInEnts)'
+            if isinstance(op, (ast.Is, ast.IsNot)) and ((_is_self(a) and _self_map_attr(b, 'spawn')) or (_is_self(b) and _self_map_attr(a, 'spawn'))):
+                return 'MCIsSpawn' if isinstance(op, ast.Is) else '(MCNot MCIsSpawn)'
+        raise TranslateError(f'{w}: unrecognised condition {ast.unparse(e)}')
+
+    def key(self, e: ast.expr, target: bool, w: str) -> str:
+        """The value folded into an index key.  by_target keys must be `<folded> or None` (or a literal)."""
+        if isinstance(e, ast.Name) and e.id in self.keys:
+            kind, k = self.keys[e.id]
+            if kind != ('t' if target else 'c'):
+                raise TranslateError(f'{w}: key local {e.id} used for the wrong index')
+            return k
+        if target:
+            if isinstance(e, ast.Constant) and e.value is None:
+                return '(MKLit [])'
+            if isinstance(e, ast.BoolOp) and isinstance(e.op, ast.Or) and len(e.values) == 2 \
+                    and isinstance(e.values[1], ast.Constant) and e.values[1].value is None:
+                e = e.values[0]
+            elif isinstance(e, ast.Constant) and isinstance(e.value, str) and e.value:
+                return f'(MKLit {_coq_str(e.value)})'
+            else:
+                raise TranslateError(f'{w}: by_target key is not `<folded value> or None`: {ast.unparse(e)}')
+        if isinstance(e, ast.Constant) and isinstance(e.value, str):
+            return f'(MKLit {_coq_str(e.value)})'
+        v = self._folded(e)
+        if isinstance(v, ast.Name) and v.id == self.newvar:
+            return 'MKNew'
+        if isinstance(v, ast.BoolOp) and isinstance(v.op, ast.Or) and len(v.values) == 2 and isinstance(v.values[0], ast.Name) \
+                and v.values[0].id == self.ov and isinstance(v.values[1], ast.Constant) and v.values[1].value == '':
+            return 'MKOrig'
+        raise TranslateError(f'{w}: unrecognised index key {ast.unparse(e)}')
+
+    def bind_local(self, name: str, v: ast.expr, w: str) -> bool:
+        """`name = v` where v is a condition or an index key: remember it for inlining."""
+        if name in self.conds or name in self.keys:
+            raise TranslateError(f'{w}: local {name} is assigned twice')
+        for kind in ('cond', 'c', 't'):
+            try:
+                if kind == 'cond':
+                    self.conds[name] = self.cond(v, w)
+                else:
+                    self.keys[name] = (kind, self.key(v, kind == 't', w))
+            except TranslateError:
+                continue
+            return True
+        return False
+
+    # -- statements
+    @staticmethod
+    def _irrelevant(st: ast.stmt) -> bool:
+        """A statement that cannot touch the indexes, the entity list, the classname/targetname or the control flow."""
+        for n in ast.walk(st):
+            if isinstance(n, ast.Attribute) and n.attr in ('by_class', 'by_target', 'entities', 'spawn'):
+                return False
+            if isinstance(n, ast.Name) and n.id == '_remove_copyset':
+                return False
+            if isinstance(n, (ast.Raise, ast.Return, ast.Yield, ast.YieldFrom, ast.Await)):
+                return False
+            if isinstance(n, ast.Subscript) and _is_self(n.value) and not isinstance(n.ctx, ast.Load):
+                return False
+            if isinstance(n, ast.Call) and isinstance(n.func, ast.Attribute) and _is_self(n.func.value):
+                return False
+        return True
+
+    def _index_sub(self, e: ast.expr) -> tuple[str, ast.expr] | None:
+        """self.map.by_X[KEY] -> (X, KEY)"""
+        if isinstance(e, ast.Subscript):
+            for ix in INDEXES:
+                if _self_map_attr(e.value, ix):
+                    return ix, e.slice
+        return None
+
+    def block(self, stmts: list[ast.stmt], k: str, other: bool) -> str:
+        if not stmts:
+            return k
+        st, rest = stmts[0], stmts[1:]
+        w = f'{self.where}:{st.lineno}'
+        if isinstance(st, ast.Pass) or (isinstance(st, ast.Expr) and isinstance(st.value, ast.Constant)):
+            return self.block(rest, k, other)
+        if isinstance(st, ast.If):
+            c = self.cond(st.test, w)
+            cont = self.block(rest, k, other)
+            # the positive branch of `key_fold == '<a key that is not indexed>'` is about that key only
+            m = c.startswith('(MCKeyIs ') and isinstance(st.test, ast.Compare) and not any(
+                isinstance(x, ast.Constant) and x.value in self.INDEXED for x in ast.walk(st.test))
+            saved = (dict(self.conds), dict(self.keys))
+            yes = self.block(st.body, cont, other or m)
+            self.conds, self.keys = dict(saved[0]), dict(saved[1])
+            no = self.block(st.orelse, cont, other)
+            self.conds, self.keys = saved
+            return f'(MIf {c} {yes} {no})'
+        if isinstance(st, ast.Return):
+            if st.value is not None and not (isinstance(st.value, ast.Constant) and st.value.value is None):
+                raise TranslateError(f'{w}: __setitem__ returns a value')
+            return 'MSkip'
+        if isinstance(st, ast.Raise):
+            exc = st.exc.func if isinstance(st.exc, ast.Call) else st.exc
+            name = exc.id if isinstance(exc, ast.Name) else '?'
+            code = {'KeyError': 'EKey', 'ValueError': 'EValue'}.get(name, 'EOther')
+            return f'(MAct (ARaise {code}))'
+        act: str | None = None
+        if isinstance(st, ast.Expr) and isinstance(st.value, ast.Call):
+            call = st.value
+            if isinstance(call.func, ast.Name) and call.func.id == '_remove_copyset':
+                if len(call.args) != 3 or call.keywords or not _is_self(call.args[2]):
+                    raise TranslateError(f'{w}: unrecognised _remove_copyset call')
+                for ix in INDEXES:
+                    if _self_map_attr(call.args[0], ix):
+                        act = f'({"ARemClass" if ix == "by_class" else "ARemTarget"} {self.key(call.args[1], ix == "by_target", w)})'
+                if act is None:
+                    raise TranslateError(f'{w}: _remove_copyset on something that is not self.map.by_class / by_target')
+            elif isinstance(call.func, ast.Attribute) and call.func.attr == 'add' and self._index_sub(call.func.value):
+                ix, kexpr = self._index_sub(call.func.value)   # type: ignore[misc]
+                if len(call.args) != 1 or call.keywords or not _is_self(call.args[0]):
+                    raise TranslateError(f'{w}: an index addition that does not add `self`')
+                act = f'({"AAddClass" if ix == "by_class" else "AAddTarget"} {self.key(kexpr, ix == "by_target", w)})'
+        if isinstance(st, ast.AnnAssign) and st.value is not None:
+            st = ast.Assign(targets=[st.target], value=st.value, lineno=st.lineno)
+        if isinstance(st, ast.Assign) and len(st.targets) == 1:
+            t, v = st.targets[0], st.value
+            if isinstance(t, ast.Subscript) and _is_self(t.value):
+                if isinstance(t.slice, ast.Constant) and isinstance(t.slice.value, str) and isinstance(v, ast.Constant) and isinstance(v.value, str):
+                    act = f'(ASelfSet {_coq_str(t.slice.value)} {_coq_str(v.value)})'
+                else:
+                    raise TranslateError(f'{w}: unrecognised recursive store {ast.unparse(st)}')
+            elif isinstance(t, ast.Subscript) and _is_self_keys(t.value) and isinstance(v, ast.Constant) and isinstance(v.value, str):
+                # a direct store: it must go to the spelling under which the value was just stored
+                if not (isinstance(t.slice, ast.Name) and self.hit.env.get(t.slice.id) == ('spell', self.hit.stored)
+                        and self.miss.env.get(t.slice.id) == ('spell', self.miss.stored)):
+                    raise TranslateError(f'{w}: direct _keys store under another spelling than the one just used')
+                act = f'(AStoreKey {_coq_str(v.value)})'
+            elif isinstance(t, ast.Name) and t.id not in (self.ov, self.newvar, self.key_param):
+                # a boolean or key local: inline it
+                # (statements after an `if` are translated before its branches, so a local may be bound only once on the
+                # way to a statement, and a binding made in one branch is not visible in the other or afterwards)
+                if self.bind_local(t.id, v, w):
+                    return self.block(rest, k, other)
+        if act is not None:
+            return _seq(f'(MAct {act})', self.block(rest, k, other))
+        if other and self._irrelevant(st):
+            return self.block(rest, k, other)
+        raise TranslateError(f'{w}: unrecognised statement in the index maintenance part: {ast.unparse(st)[:80]}')
+
+
+def _setitem_maint(ctx: dict) -> tuple[str, dict]:
+    tr = _MaintTr(ctx)
+    # boolean / key locals bound between the lookup loop and the `if key_fold == 'classname'` chain (straight-line
+    # statements every path executes; the lookup walk has already accepted them) are visible to the chain
+    for st in ctx['post']:
+        if isinstance(st, ast.AnnAssign) and st.value is not None:
+            st = ast.Assign(targets=[st.target], value=st.value, lineno=st.lineno)
+        if isinstance(st, ast.Assign) and len(st.targets) == 1 and isinstance(st.targets[0], ast.Name) \
+                and st.targets[0].id not in (tr.ov, tr.newvar, tr.key_param):
+            tr.bind_local(st.targets[0].id, st.value, f'{tr.where}:{st.lineno}')
+    prog = tr.block(list(ctx['rest']), 'MSkip', False)
+    return f'Definition gen_setitem_maint : mprog :=\n  {prog}.\n', dict(prog=prog)
+
+
+# ---------------------------------------------------------------------------------------------- VMF.add_ents
+def _add_ents_prog(fn: ast.FunctionDef) -> tuple[str, dict]:
+    where = 'VMF.add_ents'
+    params = [a.arg for a in fn.args.args]
+    if len(params) != 2 or params[0] != 'self' or fn.args.vararg or fn.args.kwarg or fn.args.kwonlyargs:
+        raise TranslateError(f'{where}: unexpected parameters {params}')
+    env: dict[str, str] = {params[1]: 'SArg'}
+    prog: list[str] = []
+
+    def src(e: ast.expr, w: str) -> str:
+        if isinstance(e, ast.Name) and e.id in env:
+            return env[e.id]
+        raise TranslateError(f'{w}: unrecognised iterable {ast.unparse(e)}')
+
+    def is_entities(e: ast.expr) -> bool:
+        return isinstance(e, ast.Attribute) and e.attr == 'entities' and _is_self(e.value)
+
+    def item_key(e: ast.expr, item: str, want: str, target: bool, w: str) -> None:
+        if target:
+            if not (isinstance(e, ast.BoolOp) and isinstance(e.op, ast.Or) and len(e.values) == 2
+                    and isinstance(e.values[1], ast.Constant) and e.values[1].value is None):
+                raise TranslateError(f'{w}: by_target key is not `<folded value> or None`')
+            e = e.values[0]
+        if not (isinstance(e, ast.Call) and isinstance(e.func, ast.Attribute) and e.func.attr == 'casefold' and not e.args and not e.keywords):
+            raise TranslateError(f'{w}: index key is not folded: {ast.unparse(e)}')
+        v = e.func.value
+        k: ast.expr | None = None
+        if isinstance(v, ast.Subscript) and isinstance(v.value, ast.Name) and v.value.id == item:
+            k = v.slice
+            if isinstance(k, ast.Tuple) and len(k.elts) == 2 and isinstance(k.elts[1], ast.Constant) and k.elts[1].value == '':
+                k = k.elts[0]
+        elif isinstance(v, ast.Call) and isinstance(v.func, ast.Attribute) and v.func.attr == 'get' and isinstance(v.func.value, ast.Name) \
+                and v.func.value.id == item and not v.keywords and 1 <= len(v.args) <= 2 \
+                and (len(v.args) == 1 or (isinstance(v.args[1], ast.Constant) and v.args[1].value == '')):
+            k = v.args[0]
+        if not (isinstance(k, ast.Constant) and k.value == want):
+            raise TranslateError(f'{w}: index key is not the {want} of the item: {ast.unparse(e)}')
+
+    def body_kinds(body: list[ast.stmt], item: str) -> list[str]:
+        out: list[str] = []
+        for st in body:
+            w = f'{where}:{st.lineno}'
+            if isinstance(st, ast.Pass) or (isinstance(st, ast.Expr) and isinstance(st.value, ast.Constant)):
+                continue
+            call = st.value if isinstance(st, ast.Expr) and isinstance(st.value, ast.Call) else None
+            if call is not None and isinstance(call.func, ast.Attribute) and len(call.args) == 1 and not call.keywords \
+                    and isinstance(call.args[0], ast.Name) and call.args[0].id == item:
+                f = call.func
+                if f.attr == 'append' and is_entities(f.value):
+                    out.append('PAppend')
+                    continue
+                if f.attr == 'add_ent' and _is_self(f.value):
+                    out += ['PAppend', 'PClass', 'PTarget']
+                    continue
+                if f.attr == 'add' and isinstance(f.value, ast.Subscript) and _self_index(f.value.value):
+                    ix = _self_index(f.value.value)
+                    item_key(f.value.slice, item, 'classname' if ix == 'by_class' else 'targetname', ix == 'by_target', w)
+                    out.append('PClass' if ix == 'by_class' else 'PTarget')
+                    continue
+            raise TranslateError(f'{w}: unrecognised statement in the loop body: {ast.unparse(st)[:80]}')
+        return out
+
+    body = _strip_doc(fn.body)
+    for i, st in enumerate(body):
+        w = f'{where}:{st.lineno}'
+        if isinstance(st, ast.AnnAssign) and st.value is not None:
+            st = ast.Assign(targets=[st.target], value=st.value, lineno=st.lineno)
+        if isinstance(st, ast.Assign) and len(st.targets) == 1 and isinstance(st.targets[0], ast.Name):
+            v = st.value
+            inner: ast.expr | None = None
+            if isinstance(v, ast.Call) and isinstance(v.func, ast.Name) and v.func.id in ('list', 'tuple') and len(v.args) == 1 and not v.keywords:
+                inner = v.args[0]
+            elif isinstance(v, (ast.List, ast.Tuple)) and len(v.elts) == 1 and isinstance(v.elts[0], ast.Starred):
+                inner = v.elts[0].value
+            elif isinstance(v, ast.ListComp) and len(v.generators) == 1 and not v.generators[0].ifs and isinstance(v.elt, ast.Name) \
+                    and isinstance(v.generators[0].target, ast.Name) and v.generators[0].target.id == v.elt.id:
+                inner = v.generators[0].iter
+            if inner is None:
+                raise TranslateError(f'{w}: unrecognised assignment {ast.unparse(st)[:80]}')
+            s0 = src(inner, w)
+            if s0 == 'SArg':
+                if 'SMat' in env.values():
+                    raise TranslateError(f'{w}: the argument is materialised twice')
+                prog.append('AEMaterialise')
+            env[st.targets[0].id] = 'SMat'
+            continue
+        if isinstance(st, ast.Expr) and isinstance(st.value, ast.Call) and isinstance(st.value.func, ast.Attribute) \
+                and st.value.func.attr == 'extend' and is_entities(st.value.func.value) and len(st.value.args) == 1 and not st.value.keywords:
+            prog.append(f'AELoop {src(st.value.args[0], w)} [PAppend]')
+            continue
+        if isinstance(st, ast.AugAssign) and isinstance(st.op, ast.Add) and is_entities(st.target):
+            prog.append(f'AELoop {src(st.value, w)} [PAppend]')
+            continue
+        if isinstance(st, ast.For) and not st.orelse and isinstance(st.target, ast.Name):
+            kinds = body_kinds(st.body, st.target.id)
+            prog.append(f'AELoop {src(st.iter, w)} [{"; ".join(kinds)}]')
+            continue
+        if isinstance(st, ast.Return) and st.value is None and i == len(body) - 1:
+            continue
+        raise TranslateError(f'{w}: unrecognised statement {ast.unparse(st)[:80]}')
+    lst = '[' + '; '.join(prog) + ']'
+    return f'Definition gen_add_ents : aeprog := {lst}.\n', dict(prog=prog)
+
+
 def translate() -> tuple[str, dict]:
     path = SRC / 'vmf.py'
     try:
         tree = ast.parse(path.read_text(encoding='utf8'))
     except SyntaxError as e:
         raise TranslateError(f'vmf.py: {e}') from None
-    c1, s1 = _setitem_shape(_find(tree, 'Entity', '__setitem__'))
+    c1, s1, ctx = _setitem_shape(_find(tree, 'Entity', '__setitem__'))
+    c4, s4 = _setitem_maint(ctx)
+    c5, s5 = _add_ents_prog(_find(tree, 'VMF', 'add_ents'))
     c2, s2 = _search_shape(_find(tree, 'VMF', 'search'))
     c3, s3 = _copyset_iter(_find(tree, 'CopySet', '__iter__'))
+    c6, s6 = _remove_copyset_shape(_find(tree, None, '_remove_copyset'))
     text = ('(* GENERATED by translate/c07_index_shapes.py from /repo/src/srctools/vmf.py. Do not edit. *)\n'
-            'From SV Require Import SM.IndexModel SM.IndexShapes.\n\n' + c1 + '\n' + c2 + '\n' + c3)
-    return text, {'setitem': s1, 'search': s2, 'copyset_iter': s3}
+            'From stdpp Require Import list.\nFrom Coq Require Import NArith.\n'
+            'From SV Require Import SM.IndexModel SM.IndexShapes SM.IndexMaint SM.IndexRemove.\n\n' + c1 + '\n' + c2 + '\n' + c3 + '\n' + c4 + '\n' + c5
+            + '\n' + c6)
+    return text, {'setitem': s1, 'search': s2, 'copyset_iter': s3, 'setitem_maint': s4, 'add_ents': s5, 'remove_copyset': s6}
 
 
 GEN = {'IndexShapes_gen': translate}
